@@ -82,6 +82,10 @@ func (c07) Generate(seed uint64, tier string, index int) any {
 		// argument lines as a hostile client would send them: receive mode
 		// means no --sender; vary order and spelling
 		args := []string{"--server"}
+		if g.R.Intn(4) == 0 {
+			// verbosity and debug levels the daemon's own client never sends
+			args = append(args, []string{"-vvv", "-vvvv", "-vv", "--debug=GENR", "--debug=ALL", "--info=ALL", "--debug=RECV,DEL", "-vvvvvv"}[g.R.Intn(8)])
+		}
 		switch g.R.Intn(4) {
 		case 0:
 			args = append(args, "-vlogDtpr")
